@@ -361,6 +361,24 @@ Definition env_cutoff (eps : num) (release_ level : num) (c : curve) : res env :
   do k <- shape_number c;
   let rl := if (k =? 2)%Z then eps else I 0 in
   Ok (env_init (Some [level; rl]) (TList [release_]) (CScalar c) (Some 0%Z) None (Some (I 0))).
+(* _shape_number on a list item: every element in order (ValueError at the first unknown name) *)
+Fixpoint shape_numbers (l : list curve) : res (list num) :=
+  match l with
+  | [] => Ok []
+  | c :: r => do k <- shape_number c; do rest <- shape_numbers r; Ok (I k :: rest)
+  end.
+(* cutoff with the curve in any accepted form: cls._shape_number(curve) is a number for a name, a
+   number or a ONE-element list (utl.unbubble), a list otherwise -- and only the number 2 selects -100 dB *)
+Definition cutoff_shape (c : carg) : res (option Z) :=
+  match c with
+  | CScalar c => do k <- shape_number c; Ok (Some k)
+  | CList [c] => do k <- shape_number c; Ok (Some k)
+  | CList l => do ks <- shape_numbers l; Ok None
+  end.
+Definition env_cutoff_c (eps : num) (release_ level : num) (c : carg) : res env :=
+  do k <- cutoff_shape c;
+  let rl := match k with Some k => if (k =? 2)%Z then eps else I 0 | None => I 0 end in
+  Ok (env_init (Some [level; rl]) (TList [release_]) c (Some 0%Z) None (Some (I 0))).
 Definition add_bias (l : list num) (bias : num) : list num := map (fun x => nadd x bias) l.
 Definition env_dadsr (delay attack decay sustain release_ peak : num) (c : carg) (bias : num) : env :=
   env_init (Some (add_bias [I 0; I 0; peak; nmul peak sustain; I 0] bias))
@@ -463,12 +481,6 @@ Definition menv_init (lv tm : list mitem) (cv : list mcurve) (rel lp : option Z)
   {| m_levels := lv'; m_times := wrap_extend tm' (length lv' - 1); m_curves := cv;
      m_release := rel; m_loop := lp; m_offset := off |}.
 
-(* _shape_number on a list item: every element in order (ValueError at the first unknown name) *)
-Fixpoint shape_numbers (l : list curve) : res (list num) :=
-  match l with
-  | [] => Ok []
-  | c :: r => do k <- shape_number c; do rest <- shape_numbers r; Ok (I k :: rest)
-  end.
 Definition mshape (c : mcurve) : res mitem :=
   match c with
   | MCS c => do k <- shape_number c; Ok (MS (I k))
